@@ -62,6 +62,7 @@ def mkEnv (nargs : Nat) : Env where
   callvalue := .var "msg_value" 256
   address := .lit 160 0x1000
   cd := cdWord nargs
+  cdByte := cdByte nargs
   cdSize := 4 + 32 * nargs
 
 /-- the driver's stand-in for z3's `simplify`: constant folding of closed terms plus elimination of a double negation
